@@ -31,10 +31,11 @@ type c16Table struct {
 }
 
 const (
-	c16PerConn = "per-connection stream id"
-	c16Remote  = "requester-chosen request id"
-	c16Global  = "co-located allocator"
-	c16Unread  = "unread secondary index"
+	c16PerConn  = "per-connection stream id"
+	c16Remote   = "requester-chosen request id"
+	c16Global   = "co-located allocator"
+	c16Unread   = "unread secondary index"
+	c16Unlisted = "not in the classified list"
 )
 
 // c16Packages are the packages whose struct types are scanned for map[uint64] fields.
@@ -70,7 +71,7 @@ func init() {
 	register(&Check{
 		ID: "C16", Level: "other", Patterns: []string{"./internal/agent"},
 		Technique: "key provenance, must-pass-through peer validation, guarded insertion over a classified table list",
-		Explain:   "Decides, for every classified map[uint64] demultiplexing table of the agent, relay table and exit-side handlers, (R1) that the key either carries a peer identity or is drawn at every insertion from an allocator that lives in the same object as the table, (R2) when R1 fails, that every frame-driven use of a looked-up entry (and every keyed deletion) can only be reached through a comparison of the entry's recorded peer with the sending peer, and (R3) when R1 fails, that an insertion is dominated by a key-absent test. A map[uint64] field that is not classified is a checker error. Byte-exact delivery and ordering are not decided.",
+		Explain:   "Decides, for every classified map[uint64] demultiplexing table of the agent, relay table and exit-side handlers, (R1) that the key either carries a peer identity or is drawn at every insertion from an allocator that lives in the same object as the table, (R2) when R1 fails, that every frame-driven use of a looked-up entry (and every keyed deletion) can only be reached through a comparison of the entry's recorded peer with the sending peer, and (R3) when R1 fails, that an insertion is dominated by a key-absent test. A map[uint64] field of those packages that is not in the classified list is judged by the same key-provenance rule: it is a violation when it maps a wire stream/request id to a per-tunnel record and is consulted on behalf of received frames, informational otherwise. Byte-exact delivery and ordering are not decided.",
 		Run:       runC16,
 		SelfTests: []SelfTest{
 			{Name: "peer test dropped in handleStreamData (upstream side)", ExpectRule: "C16.R2", ExpectKey: "agent.relayTable.byUpstream", Edits: []Edit{
@@ -115,6 +116,15 @@ func init() {
 			}},
 			{Name: "request-id index consulted by a frame handler", ExpectRule: "C16.R1", ExpectKey: "udp.Handler.byRequestID", Edits: []Edit{
 				{File: "internal/udp/handler.go", Old: "\th.mu.RLock()\n\tassoc := h.associations[streamID]\n\th.mu.RUnlock()\n\n\tif assoc == nil {\n\t\treturn nil // Already closed\n\t}\n", New: "\th.mu.RLock()\n\tassoc := h.associations[streamID]\n\tif assoc == nil {\n\t\tassoc = h.byRequestID[streamID]\n\t}\n\th.mu.RUnlock()\n\n\tif assoc == nil {\n\t\treturn nil // Already closed\n\t}\n"},
+			}},
+			{Name: "seed class C20-a: new unlisted table mapping the frame's stream id to a connection", ExpectRule: "C16.R1", ExpectKey: "exit.Handler.opening", Edits: []Edit{
+				{File: "internal/exit/handler.go", Old: "\tconnCount   atomic.Int64\n", New: "\tconnCount   atomic.Int64\n\topening     map[uint64]*ActiveConnection\n"},
+				{File: "internal/exit/handler.go", Old: "\th.mu.Lock()\n\th.connections[streamID] = ac\n", New: "\th.mu.Lock()\n\tif h.opening == nil {\n\t\th.opening = map[uint64]*ActiveConnection{}\n\t}\n\th.opening[streamID] = ac\n\th.connections[streamID] = ac\n"},
+				{File: "internal/exit/handler.go", Old: "\tif ac == nil {\n\t\treturn fmt.Errorf(\"unknown stream %d\", streamID)\n\t}\n", New: "\tif ac == nil {\n\t\th.mu.RLock()\n\t\tac = h.opening[streamID]\n\t\th.mu.RUnlock()\n\t}\n\tif ac == nil {\n\t\treturn fmt.Errorf(\"unknown stream %d\", streamID)\n\t}\n"},
+			}},
+			{Name: "rewrite: unlisted map[uint64] counter map that is no demultiplexing table", Edits: []Edit{
+				{File: "internal/exit/handler.go", Old: "\tconnCount   atomic.Int64\n", New: "\tconnCount   atomic.Int64\n\tbytesByPort map[uint64]int64\n"},
+				{File: "internal/exit/handler.go", Old: "\th.mu.Lock()\n\th.connections[streamID] = ac\n", New: "\th.mu.Lock()\n\tif h.bytesByPort == nil {\n\t\th.bytesByPort = map[uint64]int64{}\n\t}\n\th.bytesByPort[uint64(destPort)]++\n\th.connections[streamID] = ac\n"},
 			}},
 			{Name: "rewrite: operands of the peer comparison swapped", Edits: []Edit{
 				{File: "internal/agent/agent.go", Old: "if upRelay != nil && peerID == upRelay.UpstreamPeer {", New: "if upRelay != nil && upRelay.UpstreamPeer == peerID {"},
@@ -406,8 +416,13 @@ func c16ResolveTables(p *kit.Program, r *kit.Report) []*c16Eval {
 				if b, ok := m.Key().Underlying().(*types.Basic); ok && b.Kind() == types.Uint64 {
 					n++
 					if !listed[pkg+"."+name+"."+f.Name()] {
-						r.Floor("unclassified table: %s.%s.%s (%s) at %s is a map[uint64] demultiplexing candidate that is not in c16Tables: classify it (per-connection id / requester-chosen id / co-located allocator) with one line of reason",
-							strings.TrimPrefix(pkg, "internal/"), name, f.Name(), f.Type(), p.Pos(f.Pos()))
+						// not stopped on: judged with the generic rules by C16 (a cache or a
+						// counter map is harmless, a new table demultiplexing frames by a bare
+						// id is a violation)
+						if named, isNamed := tn.Type().(*types.Named); isNamed {
+							t := c16Table{Pkg: pkg, Type: name, Field: f.Name(), Class: c16Unlisted, Prop: "C16", Reason: "map[uint64] field that is not in the classified table list"}
+							out = append(out, &c16Eval{T: t, Name: c16TableName(t), Field: f, Owner: named, Pos: p.Pos(f.Pos())})
+						}
 					}
 				}
 			}
@@ -1622,6 +1637,101 @@ func (cx *c16Ctx) c16SidePeer(ev *c16Eval) *types.Var {
 	return best
 }
 
+// c16IsWireID: v is a stream or request id as it travels on the wire: a uint64 field of a
+// protocol message/frame, the result of a uint64-returning method of a peer connection or
+// stream-id allocator, or a parameter / stored field fed from one of those (three levels).
+func (cx *c16Ctx) c16IsWireID(v ssa.Value, depth int, seen map[ssa.Value]bool) bool {
+	isU64 := func(t types.Type) bool {
+		b, ok := t.Underlying().(*types.Basic)
+		return ok && b.Kind() == types.Uint64
+	}
+	for {
+		cv, ok := v.(*ssa.Convert)
+		if !ok || !isU64(cv.X.Type()) {
+			break
+		}
+		v = cv.X
+	}
+	if v == nil || seen[v] || depth > 3 || !isU64(v.Type()) {
+		return false
+	}
+	seen[v] = true
+	pkgOf := func(t types.Type) string {
+		if pt, ok := t.(*types.Pointer); ok {
+			t = pt.Elem()
+		}
+		if n, ok := t.(*types.Named); ok && n.Obj().Pkg() != nil {
+			return n.Obj().Pkg().Path()
+		}
+		return ""
+	}
+	switch x := v.(type) {
+	case *ssa.Phi:
+		for _, e := range x.Edges {
+			if cx.c16IsWireID(e, depth, seen) {
+				return true
+			}
+		}
+	case *ssa.Extract:
+		if c, ok := x.Tuple.(*ssa.Call); ok {
+			return cx.c16IsWireID(c, depth, seen) || cx.wireCall(c)
+		}
+	case *ssa.Call:
+		return cx.wireCall(x)
+	case *ssa.Parameter:
+		for _, site := range cx.p.StaticCallers(x.Parent()) {
+			for i, pa := range x.Parent().Params {
+				if pa == x && i < len(site.Common().Args) && cx.c16IsWireID(site.Common().Args[i], depth+1, seen) {
+					return true
+				}
+			}
+		}
+	case *ssa.UnOp:
+		if x.Op != token.MUL {
+			return false
+		}
+		if a, ok := x.X.(*ssa.Alloc); ok {
+			for _, rf := range *a.Referrers() {
+				if st, isSt := rf.(*ssa.Store); isSt && st.Addr == a && cx.c16IsWireID(st.Val, depth, seen) {
+					return true
+				}
+			}
+			return false
+		}
+		if fv, ok := x.X.(*ssa.FreeVar); ok {
+			vals, _ := c16CapturedStores(fv)
+			for _, sv := range vals {
+				if cx.c16IsWireID(sv, depth, seen) {
+					return true
+				}
+			}
+			return false
+		}
+		f, base := kit.LoadedField(x)
+		if f == nil {
+			return false
+		}
+		if pkgOf(base.Type()) == kit.PkgPath("internal/protocol") {
+			return true
+		}
+		for _, acc := range cx.p.FieldAccessesOfKind(f, kit.FieldStore) {
+			if cx.c16IsWireID(acc.Val, depth+1, seen) {
+				return true
+			}
+		}
+	}
+	return false
+}
+
+// wireCall: a uint64-returning method of a peer connection / transport allocator (stream ids).
+func (cx *c16Ctx) wireCall(c *ssa.Call) bool {
+	cal := kit.CalleeOf(c)
+	if cal.Recv == "" {
+		return false
+	}
+	return cal.Pkg == kit.PkgPath("internal/peer") || cal.Pkg == kit.PkgPath("internal/transport")
+}
+
 // c16Evaluate runs the three rules on one table.
 func (cx *c16Ctx) c16Evaluate(ev *c16Eval) {
 	cx.c16EvalR1(ev)
@@ -1644,6 +1754,38 @@ func runC16(p *kit.Program, r *kit.Report) {
 	n := 0
 	for _, ev := range evs {
 		if ev.T.Prop != "C16" {
+			continue
+		}
+		if ev.T.Class == c16Unlisted {
+			// a table nobody classified: decide from what the code does with it
+			cx.c16EvalR1(ev)
+			frameOps := 0
+			if !ev.R1OK {
+				cx.c16EvalR2(ev)
+				frameOps = ev.R2Ops
+			}
+			wire := false
+			for _, acc := range p.FieldAccessesOfKind(ev.Field, kit.MapInsert) {
+				if cx.c16IsWireID(acc.Key, 0, map[ssa.Value]bool{}) {
+					wire = true
+				}
+			}
+			record := false
+			switch c16EntryType(ev).Underlying().(type) {
+			case *types.Pointer, *types.Struct, *types.Interface, *types.Chan, *types.Signature, *types.Slice, *types.Map:
+				record = true
+			}
+			switch {
+			case ev.R1OK:
+				r.Infof("C16.R1", ev.Name, ev.Pos, "unlisted map[uint64] table, keys collision-free: %s", ev.R1Detail)
+			case !wire || !record:
+				r.Infof("C16.R1", ev.Name, ev.Pos, "unlisted map[uint64] table that does not map a stream/request id to a per-tunnel record (key from the wire: %v, record-valued: %v): not a demultiplexing table", wire, record)
+			case frameOps == 0:
+				r.Infof("C16.R1", ev.Name, ev.Pos, "unlisted map[uint64] table keyed by a bare id but never looked up, deleted from or handed out on behalf of a received frame: not a demultiplexing table (%s)", ev.R1Detail)
+			default:
+				r.Violation("C16.R1", ev.Name, ev.Pos, "new demultiplexing table keyed by a bare id: %s; it is consulted on behalf of received frames (%d use(s)), so two peers that use the same number share one slot: frames, closes and resets of one tunnel reach the other", ev.R1Detail, frameOps)
+			}
+			r.Count("unlisted_tables_judged", 1)
 			continue
 		}
 		n++
